@@ -591,7 +591,21 @@ def run(ctx) -> list[Inst]:
         for F in node_empty_relations:
             props = PROPS + ('C09',) + (('C11',) if F == 'compromised_by' else ())
             construct = f'(c) AttackGraphNode.{F} re-linked by the graph copy'
-            elsewhere = [b for b in own_nodes(f.node) if isinstance(b, ast.Assign) and len(b.targets) == 1
+            pm_ = {}
+            for x_ in ast.walk(f.node):
+                for ch_ in ast.iter_child_nodes(x_):
+                    pm_[id(ch_)] = x_
+
+            def in_while(b):
+                cur_ = pm_.get(id(b))
+                while cur_ is not None and cur_ is not f.node:
+                    if isinstance(cur_, ast.While):
+                        return True
+                    if isinstance(cur_, ast.For):
+                        return False
+                    cur_ = pm_.get(id(cur_))
+                return False
+            elsewhere = [b for b in own_nodes(f.node) if isinstance(b, ast.Assign) and len(b.targets) == 1 and in_while(b)
                          and isinstance(b.targets[0], ast.Attribute) and b.targets[0].attr == F
                          and any(isinstance(x, ast.Attribute) and x.attr == F for x in ast.walk(b.value))
                          and 'memo' in stmt_text(b.value, 400)]
